@@ -47,11 +47,11 @@ CLAIMED["C15"] = ("property-based testing (Hypothesis): generated syntax trees p
          "Trusts the printer pbt/gen/printer.py (precedence table from the specification; it records the byte range of every node) and the reference lexer used to place mandatory spaces.",
          "DESIGN.md section 5 / C15")
 CLAIMED["C10"] = ("property-based testing (Hypothesis): recursion shapes x depth x increasing sweeps of the frame limit, with a deterministic step budget; monotonicity/threshold oracles",
-         "Exploration: 60+ recursion shapes (calls, thunk chains, nested values through comparison/conversion/manifestation/stdlib walkers, self-referential values) x depths x limits; outcomes along a sweep must be StackOverflow* then one stable outcome, cycles must end in InfiniteRecursion/StackOverflow, never a crash or an exhausted step budget.",
+         "Exploration: 119 recursion shapes (calls, paths that are the only source of frames - iteratively built thunk chains, super / +: chains, every comparing or walking builtin over nested values -, thunk chains, nested values through comparison/conversion/manifestation/stdlib walkers, self-referential values) x depths x limits; outcomes along a sweep must be StackOverflow* then one stable outcome, cycles must end in InfiniteRecursion/StackOverflow, never a crash or an exhausted step budget; limits up to 2^64-1 must not change the outcome of a program that succeeds under a small one.",
          "Hangs are decided by the verif-hooks step budget (fuel), not by wall clock; shapes whose output size is quadratic in the depth are capped; five builtins that loop on infinitely nested values are open known findings (D16).",
          "DESIGN.md section 5 / C10")
 CLAIMED["C16"] = ("property-based testing (Hypothesis): span-manager scripts against a list model; failing programs (templates, generated trees, mutated corpus) checked for in-file spans in-process and for rendered file/line/column and trace cropping through the real binary",
-         "Exploration: registrations with context lengths up to 2^40 and span lengths around 2^25 must round-trip; every span of every error and stack-trace entry must lie inside the file it names; the rendered report (plain/coloured, every --max-trace) must exit 1 without panic text and name the primary span's file, line and column.",
+         "Exploration: registrations with context lengths up to 2^40 and span lengths around 2^25 must round-trip; every span of every error and stack-trace entry must lie inside the file it names; the rendered report (plain/coloured, every --max-trace) must exit 1 without panic text and name the primary span's file, line and column - also for every character without display width as a stray character, for multi-line spans starting on lines around every power of ten, and for std.trace reports of successful runs.",
          "Trusts the in-process error dump of the engine (public error enums) and compares the binary's first `-->` line with the primary span computed in-process on the same bytes; columns are only judged when the line prefix is printable ASCII (tabs are expanded by the renderer).",
          "DESIGN.md section 5 / C16")
 CLAIMED["C03"] = ("property-based testing (Hypothesis) + exhaustive enumeration: generated programs under many collection schedules (metamorphic), steady-state object counts over request histories, the real collector driven through a scripted heap against a reachability model",
@@ -67,14 +67,14 @@ CLAIMED["C12"] = ("property-based testing with fault injection (Hypothesis): gen
          "Runs as root (permission faults cannot be produced, stated in DESIGN.md); the closed-descriptor case is an open known finding (D10).",
          "DESIGN.md section 5 / C12")
 CLAIMED["C13"] = ("property-based testing with fault injection (Hypothesis): generated directory trees, -J orders and path spellings run through the real binary against a resolution model; self-tracing files count loads",
-         "Exploration + fault enumeration: for every generated tree the id of the copy each import resolves to, the number of evaluations per canonical file, std.thisFile, importstr (lossy UTF-8) and importbin (bytes) content are compared with a 10-line resolution model; missing files, dangling links and cycles must exit 1 located at the import site.",
+         "Exploration + fault enumeration: for every generated tree the id of the copy each import resolves to, the number of evaluations per canonical file, std.thisFile, importstr (lossy UTF-8) and importbin (bytes) content are compared with a 10-line resolution model; missing files, dangling links and cycles must exit 1 located at the import site; importstr/importbin content is exact for files whose multi-byte or invalid sequence straddles 4 KiB..256 KiB; importers without a directory (-e, stdin, ext/tla code) resolve absolute paths and -J directories.",
          "Trusts the resolution model in pbt/props/c13.py (importer's directory, then -J right-most first, absolute paths bypass) and os.path.realpath for canonical identity; runs as root, so unreadable-file faults are represented by missing files/dangling links/directories.",
          "DESIGN.md section 5 / C13")
 CLAIMED["C02"] = ("property-based testing (Hypothesis): type-directed generated core-language programs, differential against a lazy reference interpreter written from the Jsonnet specification",
          "Exploration: closed terminating programs covering every core feature and their interactions (inheritance chains in every bracketing, self/super/$, +:, visibilities, object locals, asserts, comprehensions, default/named arguments, bounded recursion), printed with varied concrete syntax; the manifested value, or the explicit-error/assert message, must equal the reference interpreter's.",
          "Trusts the reference interpreter pbt/ref/interp.py (independent of /repo, ~600 lines) and the printer; numbers reaching string coercions are small integers or k/8, shifts use literal operands, tailstrict/imports/std beyond a whitelist are excluded (documented restrictions).",
          "DESIGN.md section 5 / C02")
-CLAIMED["C09"] = ("property-based testing (Hypothesis): fault-free generated programs must load; one scoping fault of 20 kinds injected at a generated position must be rejected in the analysis phase with the right error, name and byte span",
+CLAIMED["C09"] = ("property-based testing (Hypothesis): fault-free generated programs must load; one scoping fault of 26 kinds injected at a generated position (optionally moved, with or without the rest of the program, into dead code of 20 kinds) must be rejected in the analysis phase with the right error, name and byte span",
          "Exploration: faults are injected anywhere (dead branches, unused locals, default arguments, comprehension clauses, field-name expressions, object locals), into existing constructs or wrapped around an existing sub-expression; an independent scope walker decides where self/$/super are illegal; the printer supplies the expected byte span.",
          "Trusts the scope walker in pbt/props/c09.py and the generator's by-construction closedness (cross-checked by the reference interpreter, which raises on unbound names); evaluation-time panics for unbound names are covered by C01/C02 (a panic is always a violation).",
          "DESIGN.md section 5 / C09")
